@@ -21,6 +21,7 @@ def case_strategy(draw):
     prog["style"] = draw(st.sampled_from(["or", "arr", "arr"]))
     prog["upicks"] = draw(gfi_hist.st_picks(3))
     prog["uflags"] = draw(st.lists(st.booleans(), min_size=3, max_size=3))
+    prog["newargs"] = draw(gfi_hist.st_newargs(prog["node"], prog["args"], {})) if draw(st.booleans()) else None
     return prog
 
 
@@ -91,11 +92,18 @@ def check_case(case, ctx=None):
     uasg = gfi_hist.constraint_from_picks(run_b, case["upicks"])
     uflags = case["uflags"][: len(uasg)]
     um, up = _masked(uasg, uflags, "py" if case["mrepr"] == "py" else "arr"), _plain(uasg, uflags)
-    ad = Diff.no_change(jargs)
+    new_json = case.get("newargs") or case["args"]
+    jnew = gfi.to_jax_args(sg, new_json, "arr", "arr")
+    nnew = gfi.to_np_args(sg, new_json)
+    ad = gfi_hist._diff_args(sg, new_json, case["args"], jnew, "min")
     tr_ua, w_ua, _, bwd_a = Update(gfi.build_chm(um, style=case["style"])).edit(k1, tr_b, ad)
     tr_ub, w_ub, _, bwd_b = Update(gfi.build_chm(up, style=case["style"])).edit(k1, tr_b, ad)
     masg2 = gfi_hist.model_after_update(node, run_b.assignment(), up, offered=uasg)
-    run_ub, _ = gfi.check_trace_against_model(tr_ub, node, nargs, masg2, "plain-update:", case, Violation, allow_fresh=True)
+    run_ub, fresh_ub = gfi.check_trace_against_model(tr_ub, node, nnew, masg2, "plain-update:", case, Violation, allow_fresh=True)
+    if not fresh_ub:
+        exp_wu = run_ub.score() - run_b.score()
+        if not gfi.close(gfi.fval(w_ub), exp_wu, gfi.score_tol(run_ub, len(run_b.terms))):
+            raise Violation("plain-update:weight", f"weight {gfi.fval(w_ub)!r} != new score - old score {exp_wu!r}", case)
     _compare("update", run_ub, tr_ua, w_ua, tr_ub, w_ub, case)
     paths = [p for p, _ in gfi.all_paths(node)]
     ma, mb = gfi_hist.bwd_to_model(bwd_a.constraint, paths), gfi_hist.bwd_to_model(bwd_b.constraint, paths)
